@@ -735,8 +735,8 @@ fn process_tags(
             // register early so reuse targets are available even if the element
             // is not ready (e.g. within a specs block)
             let pending_id = t
-                .get_element()
-                .and_then(|el| context.register_pending(&el));
+                .get_element_mut()
+                .and_then(|el| context.register_pending(el));
             let gen_result = t.generate_events(context);
             // (what is done with the result is kept out of this function, which is part
             // of the recursion for nested elements)
